@@ -370,6 +370,7 @@ func init() {
 				}
 			}
 			var cachedAtFault map[string]bool
+			returnedBefore := map[string]bool{} // every rule a query returned before the fault was materialised
 			for i, h := range hist {
 				if i == k {
 					cachedAtFault = map[string]bool{}
@@ -420,6 +421,9 @@ func init() {
 				}
 				full := truth[h]
 				if i < k {
+					for _, t := range got {
+						returnedBefore[t] = true
+					}
 					if !eqStrings(got, oracle[h]) {
 						c.Run.Violate(ev.Violation{Pred: "fault-free-answer", Sig: map[string]any{"query": qs[h].String()},
 							What: fmt.Sprintf("before any fault %s returned %v, fresh engine %v (%v)", qs[h], got, oracle[h], desc()), Replay: replay})
@@ -438,7 +442,7 @@ func init() {
 						gotSet[t] = true
 					}
 					for _, t := range oracle[h] {
-						if (cachedAtFault[t] || alwaysServed[t]) && !gotSet[t] {
+						if (cachedAtFault[t] || alwaysServed[t] || returnedBefore[t]) && !gotSet[t] {
 							c.Run.Violate(ev.Violation{Pred: "materialised-rules-still-served", Sig: map[string]any{"query": qs[h].String(), "lost": t},
 								What: fmt.Sprintf("after the fault %s no longer returns %q although it was in memory (%v)", qs[h], t, desc()), Replay: replay})
 						}
